@@ -234,6 +234,9 @@ Definition squares (d : scores) (total : Q) : scores :=
   let z := qsum (map snd sq) in
   map (fun q => (fst q, snd q / z)) sq.
 
+Definition squares_mass (d : scores) (total : Q) : Q :=
+  qsum (map (fun q => (snd q / total) * (snd q / total)) d).
+
 Definition brd_step (p : profile) (prev : estate) : M (profile * estate) :=
   do! du := next_draw cand CUniform in
   match du with
@@ -245,6 +248,9 @@ Definition brd_step (p : profile) (prev : estate) : M (profile * estate) :=
           then
             (* 0/0 = nan probabilities: numpy raises ValueError *)
             if Qeq_bool (total_wt cand (ballots p)) 0 then mfail EValue else
+            (* all recorded tallies zero (only reachable in a get_profile replay that has diverged
+               from the recorded run): np.sum(p) = 0, again 0/0 *)
+            if Qeq_bool (squares_mass (escores prev) (total_wt cand (ballots p))) 0 then mfail EValue else
             let pop := squares (escores prev) (total_wt cand (ballots p)) in
             do! dc := next_draw cand (CNpChoice pop) in
             match dc with
